@@ -120,7 +120,10 @@ pub fn run_cli(o: &CliOpts) -> CliRun {
     if let Some(c) = o.cwd {
         cmd.current_dir(c);
     }
-    let out = util::run(&mut cmd, None, Duration::from_secs(120), MEM_LIMIT).expect("spawning eqlog-cli");
+    // a component build runs rustc as a child, which inherits the limit: no limit there
+    let mem = if o.component_out.is_some() && o.rustc_path.is_none() { 0 } else { MEM_LIMIT };
+    let timeout = if o.component_out.is_some() { 900 } else { 120 };
+    let out = util::run(&mut cmd, None, Duration::from_secs(timeout), mem).expect("spawning eqlog-cli");
     CliRun { out }
 }
 
